@@ -9,6 +9,7 @@ import (
 	"testing/synctest"
 	"time"
 
+	header "github.com/celestiaorg/go-header"
 	hsync "github.com/celestiaorg/go-header/sync"
 
 	"verifharness/mbt"
@@ -51,6 +52,11 @@ func TestBifurcation(t *testing.T) {
 		failAt := mbt.Int(in, "failAt")
 		badMid := mbt.Int(in, "badMid")
 		adjSoft := mbt.Bool(in, "adjSoft")
+		// replay-only dimensions (the model's prediction does not depend on them):
+		// via = "head": the candidate is the soft-failing answer of the getter's Head() to a stale Syncer.Head() call
+		//               instead of a gossip delivery; fk = "notfound": the getter fails with header.ErrNotFound;
+		// failAll: every request from failAt on fails (peers that cannot serve the heights at all)
+		via, fk, failAll := mbt.Str(in, "via"), mbt.Str(in, "fk"), mbt.Bool(in, "failAll")
 		forge := func(chain *vh.Chain, h uint64, salt uint64) *vh.Header {
 			f := chain.Forge(h, salt)
 			if adjSoft {
@@ -68,13 +74,18 @@ func TestBifurcation(t *testing.T) {
 			n := newNode(t, chain, subj, 64, hsync.WithBlockTime(time.Hour), hsync.WithTrustingPeriod(24*time.Hour))
 			n.get.headFn = func(gcall, *vh.Header) (*vh.Header, error) { return nil, errors.New("no network head in this scenario") }
 			n.get.byHFn = func(c gcall) (*vh.Header, error) {
-				if failAt != 0 && c.N+1 == failAt {
-					return nil, errors.New("scripted getter failure")
-				}
 				if c.N > 400 {
 					return nil, errors.New("harness: request budget exhausted")
 				}
-				time.Sleep(time.Second) // virtual: a search that never ends runs into the caller's deadline
+				if failAt != 0 && (c.N+1 == failAt || (failAll && c.N+1 > failAt)) {
+					if fk == "notfound" {
+						return nil, fmt.Errorf("height %d: %w", c.H, header.ErrNotFound)
+					}
+					return nil, errors.New("scripted getter failure")
+				}
+				if via != "head" { // (a Head() request is capped by NetworkHeadRequestTimeout: there the request budget bounds a runaway search)
+					time.Sleep(time.Second) // virtual: a search that never ends runs into the caller's deadline
+				}
 				if badMid != 0 && int(c.H) == subj+badMid {
 					return forge(chain, c.H, 3), nil
 				}
@@ -103,6 +114,24 @@ func TestBifurcation(t *testing.T) {
 				cand = forge(chain, uint64(subj+d), 1)
 			}
 			done := make(chan error, 1)
+			if via == "head" {
+				time.Sleep(4 * time.Hour) // the subjective head is no longer recent (recency = 3 x blockTime) (not expired): Head() asks the network
+				synctest.Wait()
+				n.get.resetLog()
+				n.get.headFn = func(_ gcall, trusted *vh.Header) (*vh.Header, error) {
+					if trusted == nil {
+						return nil, errors.New("unexpected untrusted head request")
+					}
+					if err := header.Verify(trusted, cand); err != nil {
+						var ve *header.VerifyError
+						if errors.As(err, &ve) && ve.SoftFailure {
+							return cand, err // what p2p.Exchange.Head does with a soft-failing answer of a tracked peer
+						}
+						return nil, header.ErrNotFound
+					}
+					return cand, nil
+				}
+			}
 			go func() {
 				defer func() {
 					if r := recover(); r != nil {
@@ -112,6 +141,14 @@ func TestBifurcation(t *testing.T) {
 				}()
 				ctx, cancel := context.WithTimeout(bg, time.Hour)
 				defer cancel()
+				if via == "head" {
+					hd, err := n.sy.Head(ctx)
+					if err == nil && (hd == nil || hd.Hash().String() != cand.Hash().String()) {
+						err = errors.New("Head() did not adopt the candidate")
+					}
+					done <- err
+					return
+				}
 				done <- n.sub.deliver(ctx, cand)
 			}()
 			synctest.Wait()
@@ -165,6 +202,8 @@ func TestBifurcation(t *testing.T) {
 			}
 			rec.Obs.Prom = prom
 			pmu.Unlock()
+			// what the Syncer now considers its head, without handing it the candidate again
+			n.get.headFn = func(gcall, *vh.Header) (*vh.Header, error) { return nil, errors.New("no network head any more") }
 			hctx, hcancel := context.WithTimeout(bg, time.Second)
 			if hd, herr := n.sy.Head(hctx); herr == nil && hd != nil {
 				rec.Obs.HeadIsCandidate = hd.Hash().String() == cand.Hash().String()
